@@ -105,6 +105,12 @@ class VirtualFS:
         fault = self.faults.get(n)
         if fault == 'raise':
             raise OSError(f'injected fetch fault #{n}')
+        if fault == 'raise-rt':
+            # a fetch function that itself fails with the interpreter's error type (e.g. it runs a script of its own): a failed fetch like any other
+            from bare_script.runtime import BareScriptRuntimeError
+            raise BareScriptRuntimeError(f'injected fetch fault #{n}')
+        if fault == 'raise-bare':
+            raise KeyError()
         if fault == 'none':
             return None
         if fault == 'broken':
